@@ -33,6 +33,26 @@ func NamedCaptures(regexString string) (map[string][]string, error) {
 	return extracts, nil
 }
 
+// HasEmptyWidth reports whether the regex contains an empty-width assertion
+// (^ $ \A \z \b \B): what such an assertion sees depends on the bytes around
+// a match, so a buffer must not be cut next to it.
+func HasEmptyWidth(regexString string) (bool, error) {
+	r, err := syntax.Parse(regexString, syntax.Perl)
+	if err != nil {
+		return false, err
+	}
+	p, err := syntax.Compile(r.Simplify())
+	if err != nil {
+		return false, err
+	}
+	for _, i := range p.Inst {
+		if i.Op == syntax.InstEmptyWidth {
+			return true, nil
+		}
+	}
+	return false, nil
+}
+
 func ConstantSuffix(regexString string) ([]byte, error) {
 	r, err := syntax.Parse(regexString, syntax.Perl)
 	if err != nil {
@@ -42,6 +62,7 @@ func ConstantSuffix(regexString string) ([]byte, error) {
 	if err != nil {
 		return nil, err
 	}
+	hasEmptyWidth := false
 	evaluate := (func(s *[]byte, pos uint32, seen []uint32) error)(nil)
 	evaluate = func(s *[]byte, pos uint32, seen []uint32) error {
 		for {
@@ -55,6 +76,9 @@ func ConstantSuffix(regexString string) ([]byte, error) {
 				}
 				fallthrough
 			case syntax.InstNop, syntax.InstEmptyWidth, syntax.InstCapture:
+				if i.Op == syntax.InstEmptyWidth {
+					hasEmptyWidth = true
+				}
 				pos = i.Out
 				continue
 			case syntax.InstAlt, syntax.InstAltMatch:
@@ -93,7 +117,13 @@ func ConstantSuffix(regexString string) ([]byte, error) {
 		}
 	}
 	s := []byte(nil)
-	return s, evaluate(&s, uint32(p.Start), nil)
+	err = evaluate(&s, uint32(p.Start), nil)
+	if hasEmptyWidth {
+		// the scan cuts the buffer around the suffix; that changes what an
+		// empty-width assertion (^ $ \b \B ...) at either end of a match sees
+		s = nil
+	}
+	return s, err
 }
 
 func AcceptedLength(regexString string) (AcceptedLengths, error) {
